@@ -14,11 +14,21 @@ def _spell(rng, e, **kw):
     return G.spell(e, G.Spelling(rng, **kw))
 
 
+EVAL_ERRORS = ("err:type", "err:arity", "err:nofunc", "err:nons", "err:unsupported", "err:dom", "err:other")
+
+
+def _one_error_class(x):
+    """XPath 1.0 defines WHEN an expression is in error, not which of several errors of one expression is reported (an unbound
+    prefix and a type error in the same expression: the library meets the type error first, the model the prefix): all
+    evaluation errors are one outcome class; syntax errors stay apart"""
+    return "err:evaluation" if x in EVAL_ERRORS else x
+
+
 def _fields(ans, n):
     f, doc = XP.split_answer(ans)
     if len(f) != n:
         f = (f + [ans if ans in BAD else "abort"] * n)[:n]
-    return [XP.strip_impl(x) for x in f], f, doc
+    return [_one_error_class(XP.strip_impl(x)) for x in f], f, doc
 
 
 def _known(findings, chk, fid):
